@@ -28,6 +28,9 @@ import (
 // ErrLocateGetterNil is returned when a LocateOptions.Getter is nil.
 var ErrLocateGetterNil = errors.New("locate getter is nil")
 
+// ErrLocateVariableReaderNil is returned when a LocateOptions.UEFIVariableReader is nil.
+var ErrLocateVariableReaderNil = errors.New("locate UEFI variable reader is nil")
+
 // LocateOptions contains options for locating data that can be local or remote.
 type LocateOptions struct {
 	Getter             trust.HTTPSGetter
@@ -72,6 +75,9 @@ func Locate(locType uint32, loc []byte, opts *LocateOptions) ([]byte, error) {
 		guid, name, err := variableLocatorDecode(loc)
 		if err != nil {
 			return nil, err
+		}
+		if opts.UEFIVariableReader == nil {
+			return nil, ErrLocateVariableReaderNil
 		}
 		return opts.UEFIVariableReader.ReadVariable(guid, name)
 	default:
